@@ -64,6 +64,7 @@ NATIVE = dict(
                           ('src/protocol/mod.rs', 'codec_spec.rs', 'verif_native_codec'),
                           ('src/link/remote.rs', 'admission.rs', 'verif_native'),
                           ('src/segments/mod.rs', 'commitlog_model.rs', 'verif_native'),
+                          ('src/router/logs.rs', 'datalog_model.rs', 'verif_native'),
                           ('src/protocol/v4/mod.rs', 'decoder_spec.rs', 'verif_native_dec', dict(COPY='rumqttd::protocol::v4::V4::read_mut', DECODE='V4.read_mut(stream, max)')),
                           ('src/protocol/v5/mod.rs', 'decoder_spec.rs', 'verif_native_dec', dict(COPY='rumqttd::protocol::v5::V5::read_mut', DECODE='V5.read_mut(stream, max)'))]),
 )
@@ -224,7 +225,7 @@ PROPS = dict(
         verus=['commitlog'],
         kani=['rumqttd'], native=['rumqttd'],
         scope='CommitLog::{new,next_offset,append,apply_retention,readv} and Segment::{new,with_offset,next_offset,push,len,size} verified by Verus on the text extracted from /repo at run time; Segment::readv (iterator chain) assumed in Verus and bounded-checked by Kani',
-        residual='DataLog::native_readv expiry filter (uses Instant) and Storage::size implementations are outside the unit',
+        residual='DataLog::native_readv (wrapper the router reads through; uses Instant for the expiry filter) is outside the Verus unit and covered by a BOUNDED native check that it returns exactly what CommitLog::readv returns; Storage::size implementations are outside the unit',
         assumptions=[
             'machine arithmetic is NOT treated as mathematical: stated preconditions tail < u64::MAX, absolute_offset + 2*len + 2 <= u64::MAX, total_size + size(entry) <= u64::MAX on append; len <= u32::MAX on readv',
             'Clone::clone of a log entry returns an equal value (generic T: Clone has no specification)',
